@@ -133,7 +133,8 @@ def run(ctx):
     # two fields of the record against each other (no literal): every operator on pairs of boundary values, among them
     # distinct integers that are the same float64, integers against floats and numeric strings, arrays against scalars
     pv = [0, 1, -1, 7, 7.5, 1000000, 1234567, 1234568, 2 ** 53 - 1, 2 ** 53, 2 ** 53 + 1, 2 ** 53 + 2, -(2 ** 53), -(2 ** 53) - 1,
-          2 ** 62, 2 ** 62 + 1, 2 ** 63 - 1, 2 ** 63 - 2, float(2 ** 53), 9007199254740994.0, 1e21, -0.0, "7", "1000000", "x", None, True]
+          2 ** 62, 2 ** 62 + 1, 2 ** 63 - 1, 2 ** 63 - 2, float(2 ** 53), 9007199254740994.0, 1e21, -0.0, "7", "1000000", "x", None, True,
+          3.1415926, "3.14159", "3.1415926", 1234.5678, "1234.57", 1234567.5, "1.23457e+06", 0.000012345678, "1.23457e-05"]
     pa, pb = ('path', [('k', 'a')]), ('path', [('k', 'b')])
     ppairs = [(x, y) for x in pv for y in pv]
     for x, y in (rng.sample(ppairs, 160) if quick else ppairs):
